@@ -245,7 +245,47 @@ def gen_reduce(ctx, n):
 
 
 def ddescribe(c):
-    return "parallel_deterministic_reduce(blocked_range(%d,%d,%d), %s_partitioner), %d threads" % (c[2], c[3], c[4], PARTS[c[0]], c[1])
+    f = c[5] if len(c) > 5 else 0
+    return "parallel_deterministic_reduce(blocked_range(%d,%d,%d), %s form%s%s), %d threads" % (
+        c[2], c[3], c[4], "lambda" if f & 1 else "Body", ", simple_partitioner" if f & 4 else ", default partitioner", ", task_group_context" if f & 2 else "", c[1])
+
+
+def dreduce_tie(ctx, exe, cases):
+    name = "dreduce-tree"
+    rc, lines, err = ctx.run_driver(exe, ["dreduce"], cases, timeout=900)
+    while len(lines) < len(cases):
+        lines.append("CRASH rc=%s" % rc)
+    model = ctx.modelrun("dreduce", cases)
+    nmis = nviol = 0
+    groups = {}
+    for i, c in enumerate(cases):
+        ctx.count((name, tuple(c)), True, "dreduce form=%d" % c[5])
+        groups.setdefault((c[2], c[3], c[4]), []).append(i)
+    reported = set()
+    for key, idx in groups.items():
+        outs = {}
+        for i in idx:
+            outs.setdefault(lines[i].strip(), []).append(i)
+        if len(outs) > 1:
+            nviol += 1
+            (o1, l1), (o2, l2) = list(outs.items())[:2]
+            if nviol <= 3:
+                ctx.add(Finding("violation", "dreduce-tree-not-deterministic",
+                                "the split/join tree of parallel_deterministic_reduce over blocked_range(%d,%d,%d) is not a function of range and grain: %s gives %s... but %s gives %s..." % (
+                                    key[0], key[1], key[2], ddescribe(cases[l1[0]]), o1[:80], ddescribe(cases[l2[0]]), o2[:80]),
+                                {"tie": name, "case": cases[l1[0]], "case2": cases[l2[0]], "impl": o1[:2000], "impl2": o2[:2000]}))
+            reported.update(idx)
+    for i, c in enumerate(cases):
+        if i in reported:
+            continue
+        if lines[i].split() == [str(x) for x in model[i]]:
+            ctx.traces_validated += 1
+            continue
+        nmis += 1
+        if nmis <= 3:
+            ctx.add(Finding("broken", "broken:tie:" + name, "correspondence %s: %s: the real tree differs from dsplit(range, grain)" % (name, ddescribe(c)),
+                            {"tie": name, "case": c, "impl": lines[i][:2000], "model": " ".join(map(str, model[i]))[:2000]}))
+    ctx.ties.append({"name": name, "cases": len(cases), "disagreements": nmis, "oracle_violations": nviol})
 
 
 def scan_oracle(c, toks):
@@ -329,11 +369,12 @@ def run(ctx):
         g = rng.choice([1, 2, 3, 7, 16, 100])
         if size // g > 2000:
             g = size // 1000
-        dc.append([0, rng.choice([1, 2, 4, 16]), lo, lo + size, g])
-    ctx.rules.append("dreduce-tree: real parallel_deterministic_reduce (simple_partitioner, 1-16 threads) with a tree-building (non-associative) Body; the tree must equal dsplit(range, grain)")
+        dc.append([0, rng.choice([1, 2, 4, 16]), lo, lo + size, g, rng.randrange(8)])
+    ctx.rules.append("dreduce-tree: real parallel_deterministic_reduce (all 8 simple-partitioner overloads: Body/lambda form x default/explicit partitioner x with/without context; 1-16 threads) with a tree-building (non-associative) Body; the tree must equal dsplit(range, grain)")
     nonempty = [c for c in dc if c[3] > c[2]]
-    diff_tie(ctx, "dreduce-tree", exe, ["dreduce"], "dreduce", nonempty, describe=ddescribe, bucket=lambda c: "dreduce P=%d" % c[1],
-             oracle=None)
+    # every (range, grain) appears with several overloads and thread counts: the property says they all give one tree
+    nonempty = nonempty + [[0, rng.choice([1, 2, 4, 16]), c[2], c[3], c[4], (c[5] + 1 + rng.randrange(7)) % 8] for c in nonempty]
+    dreduce_tie(ctx, exe, nonempty)
     # the model runner takes (lo hi g): adapt by a second pass is not needed — see modelrun adapter below
     sc = [[rng.choice([0, 1]), rng.choice([1, 2, 4, 16]), 0, rng.choice([0, 1, 2, 10, 100, 1000, 5000]), rng.choice([1, 2, 10, 100]), rng.choice([0, 100, 3000])] for _ in range(ctx.scale(150, 3000))]
     ctx.rules.append("scan (oracle only): every element gets exactly one final pass whose incoming prefix is lo..i-1; the returned sum is the full reduction")
